@@ -204,3 +204,194 @@ def tx_info(p):
             if pr[:1] == b"\x0b":
                 d["subid"] = read_varint(pr, 1)[0]
     return d
+
+
+# ---- strict well-formedness of a CLIENT packet, written from the standard (for the C01 oracle) --------------
+
+def strict_varint(b, i):
+    """(value, next index) of a variable byte integer in its MINIMAL encoding (MQTT-1.5.5-1), else None"""
+    r = read_varint(b, i)
+    if r is None:
+        return None
+    v, j = r
+    if bytes(b[i:j]) != varint(v):
+        return None
+    return v, j
+
+
+def _utf8(b):
+    try:
+        bytes(b).decode("utf-8")
+        return True
+    except UnicodeDecodeError:
+        return False
+
+
+def check_props(pr, allowed, repeatable=(38,)):
+    """property section body -> error string or None"""
+    i, seen = 0, set()
+    while i < len(pr):
+        pid = pr[i]
+        t = PTYPE.get(pid)
+        if t is None or pid not in allowed:
+            return "property 0x%02x not allowed here" % pid
+        if pid in seen and pid not in repeatable:
+            return "property 0x%02x repeated" % pid
+        seen.add(pid)
+        i += 1
+        if t == "byte":
+            n = 1
+        elif t == "u16":
+            n = 2
+        elif t == "u32":
+            n = 4
+        elif t == "var":
+            r = strict_varint(pr, i)
+            if r is None:
+                return "malformed variable byte integer in a property"
+            n = r[1] - i
+        elif t in ("str", "bin", "pair"):
+            n = 0
+            for part in range(2 if t == "pair" else 1):
+                if i + n + 2 > len(pr):
+                    return "truncated property"
+                ln = (pr[i + n] << 8) | pr[i + n + 1]
+                if i + n + 2 + ln > len(pr):
+                    return "truncated property"
+                if t != "bin" and not _utf8(pr[i + n + 2:i + n + 2 + ln]):
+                    return "invalid UTF-8 in a property"
+                n += 2 + ln
+        if i + n > len(pr):
+            return "truncated property"
+        i += n
+    return None
+
+
+def _props_at(body, k, allowed, repeatable=(38,)):
+    r = strict_varint(body, k)
+    if r is None:
+        return "property length is not a minimal variable byte integer", None
+    pl, k2 = r
+    if k2 + pl > len(body):
+        return "property length exceeds the packet", None
+    e = check_props(body[k2:k2 + pl], allowed, repeatable)
+    return e, k2 + pl
+
+
+def _str_at(body, k, utf8=True):
+    if k + 2 > len(body):
+        return "truncated string", None
+    ln = (body[k] << 8) | body[k + 1]
+    if k + 2 + ln > len(body):
+        return "string length exceeds the packet", None
+    if utf8 and not _utf8(body[k + 2:k + 2 + ln]):
+        return "invalid UTF-8", None
+    return None, k + 2 + ln
+
+
+def wellformed_client_packet(p):
+    """None when p is exactly one well-formed MQTT 5 control packet a client may send, else what is wrong"""
+    if len(p) < 2:
+        return "shorter than a fixed header"
+    t, flags = p[0] >> 4, p[0] & 15
+    r = strict_varint(p, 1)
+    if r is None:
+        return "remaining length is not a minimal variable byte integer"
+    rl, j = r
+    if j + rl != len(p):
+        return "remaining length %d does not equal the %d bytes that follow" % (rl, len(p) - j)
+    body = p[j:]
+    want_flags = {1: 0, 4: 0, 5: 0, 6: 2, 7: 0, 8: 2, 10: 2, 12: 0, 14: 0, 15: 0}
+    if t in want_flags and flags != want_flags[t]:
+        return "reserved header flags 0x%x" % flags
+    if t == 1:
+        if bytes(body[:7]) != b"\x00\x04MQTT\x05":
+            return "protocol name/version"
+        cf = body[7]
+        if cf & 1:
+            return "reserved connect flag set"
+        will = (cf >> 2) & 1
+        if not will and (cf & 0x38):
+            return "will QoS/retain set without a will"
+        if ((cf >> 3) & 3) == 3:
+            return "will QoS 3"
+        e, k = _props_at(body, 10, {17, 33, 39, 34, 25, 23, 38, 21, 22})
+        if e:
+            return "CONNECT properties: " + e
+        e, k = _str_at(body, k)
+        if e:
+            return "client identifier: " + e
+        if will:
+            e, k = _props_at(body, k, {24, 1, 2, 3, 8, 9, 38})
+            if e:
+                return "will properties: " + e
+            e, k = _str_at(body, k)
+            if e:
+                return "will topic: " + e
+            e, k = _str_at(body, k, utf8=False)
+            if e:
+                return "will payload: " + e
+        if cf & 0x80:
+            e, k = _str_at(body, k)
+            if e:
+                return "user name: " + e
+        if cf & 0x40:
+            e, k = _str_at(body, k, utf8=False)
+            if e:
+                return "password: " + e
+        return None if k == len(body) else "trailing bytes in CONNECT"
+    if t == 3:
+        qos = (flags >> 1) & 3
+        if qos == 3:
+            return "QoS 3"
+        e, k = _str_at(body, 0)
+        if e:
+            return "topic: " + e
+        if qos:
+            if k + 2 > len(body) or ((body[k] << 8) | body[k + 1]) == 0:
+                return "packet identifier missing or zero"
+            k += 2
+        e, k = _props_at(body, k, {1, 2, 35, 8, 9, 38, 3})
+        return ("PUBLISH properties: " + e) if e else None
+    if t in (4, 5, 6, 7):
+        if len(body) < 2 or ((body[0] << 8) | body[1]) == 0:
+            return "packet identifier missing or zero"
+        if len(body) == 2 or len(body) == 3:
+            return None
+        e, k = _props_at(body, 3, {31, 38})
+        return ("ack properties: " + e) if e else (None if k == len(body) else "trailing bytes in an acknowledgement")
+    if t in (8, 10):
+        if len(body) < 2 or ((body[0] << 8) | body[1]) == 0:
+            return "packet identifier missing or zero"
+        e, k = _props_at(body, 2, {11, 38} if t == 8 else {38})
+        if e:
+            return "properties: " + e
+        n = 0
+        while k < len(body):
+            e, k = _str_at(body, k)
+            if e:
+                return "topic filter: " + e
+            if t == 8:
+                if k >= len(body):
+                    return "subscription options missing"
+                o = body[k]
+                if o & 0xc0 or (o & 3) == 3 or ((o >> 4) & 3) == 3:
+                    return "subscription options byte 0x%02x uses reserved bits/values" % o
+                k += 1
+            n += 1
+        return None if n else "no topic filter"
+    if t == 12:
+        return None if rl == 0 else "PINGREQ with a body"
+    if t == 14:
+        if rl == 0 or rl == 1:
+            return None
+        e, k = _props_at(body, 1, {17, 31, 38, 28})
+        return ("DISCONNECT properties: " + e) if e else (None if k == len(body) else "trailing bytes in DISCONNECT")
+    if t == 15:
+        if rl == 0:
+            return None
+        if rl == 1:
+            return "AUTH with remaining length 1"
+        e, k = _props_at(body, 1, {21, 22, 31, 38})
+        return ("AUTH properties: " + e) if e else (None if k == len(body) else "trailing bytes in AUTH")
+    return "packet type %d is not sent by a client" % t
